@@ -32,6 +32,7 @@ var maxU64 = new(big.Int).SetUint64(math.MaxUint64)
 
 type mtTok struct {
 	Data   string
+	Shown  *big.Int // the supply the token record presents (listing / query)
 	Supply *big.Int
 	Bal    map[string]*big.Int
 }
@@ -158,6 +159,47 @@ func (w *mtWorkload) Next(block int) []rig.Tx {
 		}
 	}
 	w.followUp = nil
+	// every 15 blocks every holder of one token burns all it holds: the supply of that token reaches exactly zero (and a
+	// later mint brings it back)
+	if block%15 == 7 {
+		for _, cid := range w.classes() {
+			done := false
+			tids := make([]string, 0, len(w.model[cid].Toks))
+			for tid := range w.model[cid].Toks {
+				tids = append(tids, tid)
+			}
+			sort.Strings(tids)
+			for _, tid := range tids {
+				t := w.model[cid].Toks[tid]
+				if t.Supply.Sign() == 0 || len(t.Bal) == 0 || len(t.Bal) > 4 {
+					continue
+				}
+				var burns []rig.Tx
+				holders := make([]string, 0, len(t.Bal))
+				for h := range t.Bal {
+					holders = append(holders, h)
+				}
+				sort.Strings(holders)
+				for _, h := range holders {
+					a := findAcc(r, h)
+					if a == nil || !t.Bal[h].IsUint64() {
+						burns = nil
+						break
+					}
+					burns = append(burns, r.Mk(a, &mtTag{Op: "burn"}, &mttypes.MsgBurnMT{Id: tid, DenomId: cid, Amount: t.Bal[h].Uint64(), Sender: h}))
+				}
+				if len(burns) > 0 {
+					out = append(out, burns...)
+					w.run.Count("mt-every-holder-burns-everything", 1)
+					done = true
+					break
+				}
+			}
+			if done {
+				break
+			}
+		}
+	}
 	n := 1 + rng.Intn(4)
 	for i := 0; i < n; i++ {
 		classes := w.classes()
@@ -280,7 +322,7 @@ func (w *mtWorkload) snapshot(ctx sdk.Context) *mtSnap {
 	for _, d := range k.GetDenoms(ctx) {
 		c := &mtClass{Owner: d.Owner, Name: d.Name, Data: string(d.Data), Toks: map[string]*mtTok{}}
 		for _, m := range k.GetMTs(ctx, d.Id) {
-			c.Toks[m.GetID()] = &mtTok{Data: string(m.GetData()), Supply: new(big.Int).SetUint64(k.GetMTSupply(ctx, d.Id, m.GetID())), Bal: map[string]*big.Int{}}
+			c.Toks[m.GetID()] = &mtTok{Data: string(m.GetData()), Shown: new(big.Int).SetUint64(m.GetSupply()), Supply: new(big.Int).SetUint64(k.GetMTSupply(ctx, d.Id, m.GetID())), Bal: map[string]*big.Int{}}
 		}
 		s.Classes[d.Id] = c
 	}
@@ -625,6 +667,9 @@ func (w *mtWorkload) compare(br *rig.BlockRecord, tx *rig.TxRecord, s *mtSnap) {
 			}
 			if sum.Cmp(ct.Supply) != 0 {
 				run.Violation("C15:mt:balances-do-not-add-up-to-supply", det, "token %s: sum of balances %s, recorded supply %s", tid, sum, ct.Supply)
+			}
+			if ct.Shown != nil && ct.Shown.Cmp(ct.Supply) != 0 {
+				run.Violation("C15:mt:token-record-presents-another-supply", det, "token %s: the token record presents supply %s, the supply on record is %s (sum of balances %s)", tid, ct.Shown, ct.Supply, sum)
 			}
 			if ct.Supply.Cmp(mt.Supply) != 0 {
 				run.Violation("C15:mt:supply-differs", det, "token %s supply on chain %s, reference %s", tid, ct.Supply, mt.Supply)
